@@ -81,7 +81,11 @@ class LP_Solver:
 
         self.run_optimisations(self.optimisation_options)
 
-        if len(self.optimisation_options) == 0:
+        # Solve once if nothing has been solved yet: no optimisations were 
+        # requested, or none of them had a rank to optimise (no student lists 
+        # any project).
+        if (self.failed_status is None and 
+            self.prob.status == LpStatusNotSolved):
             self.solve_to_optimality()
 
         self.model.info_string = self.info_string
